@@ -108,6 +108,16 @@ class BuildError(Exception):
 
 
 def _limits():
+    """the implementation runs with the stack it has in normal use (8 MB main thread): finding K6 is about exactly that"""
+    resource.setrlimit(resource.RLIMIT_AS, (12 << 30, 12 << 30))
+    resource.setrlimit(resource.RLIMIT_CORE, (0, 0))
+    try:
+        resource.setrlimit(resource.RLIMIT_STACK, (8 << 20, 8 << 20))
+    except (ValueError, OSError):
+        pass
+
+
+def _limits_model():
     resource.setrlimit(resource.RLIMIT_AS, (12 << 30, 12 << 30))
     resource.setrlimit(resource.RLIMIT_CORE, (0, 0))
     try:
@@ -117,10 +127,11 @@ def _limits():
         pass
 
 
-def run_server(cmd, requests, per_request_timeout=90.0, total_timeout=None):
+def run_server(cmd, requests, per_request_timeout=90.0, total_timeout=None, limits=None):
     """Feed `requests` (list of lines) to a protocol server, one answer per request.  If the
     server dies or stalls on a request, that request is answered `CRASH <why>` / `TIMEOUT` and
     the rest are retried in a new process."""
+    limits = limits or _limits
     answers = [None] * len(requests)
     start = 0
     while start < len(requests):
@@ -130,7 +141,7 @@ def run_server(cmd, requests, per_request_timeout=90.0, total_timeout=None):
         budget = total_timeout or max(600.0, per_request_timeout + 0.05 * len(batch))
         try:
             p = subprocess.run(cmd, input=inp, stdout=subprocess.PIPE, stderr=subprocess.PIPE,
-                               text=True, timeout=budget, preexec_fn=_limits)
+                               text=True, timeout=budget, preexec_fn=limits)
             out = p.stdout.split("\n")
             if out and out[-1] == "":
                 out.pop()
@@ -153,7 +164,7 @@ def run_server(cmd, requests, per_request_timeout=90.0, total_timeout=None):
         # request start+n killed or stalled the server
         if timed_out:
             # distinguish a single slow request from an overall slow batch: retry it alone
-            alone = _run_alone(cmd, batch[n], per_request_timeout)
+            alone = _run_alone(cmd, batch[n], per_request_timeout, limits)
             answers[start + n] = alone
         else:
             answers[start + n] = "CRASH rc=%s" % rc
@@ -161,10 +172,10 @@ def run_server(cmd, requests, per_request_timeout=90.0, total_timeout=None):
     return answers
 
 
-def _run_alone(cmd, request, timeout):
+def _run_alone(cmd, request, timeout, limits=None):
     try:
         p = subprocess.run(cmd, input=request + "\n", stdout=subprocess.PIPE, stderr=subprocess.PIPE,
-                           text=True, timeout=timeout, preexec_fn=_limits)
+                           text=True, timeout=timeout, preexec_fn=limits or _limits)
         out = p.stdout.split("\n")
         if out and out[0] != "":
             return out[0]
@@ -179,7 +190,7 @@ def impl(requests, profile="release", **kw):
 
 def model(requests, **kw):
     build_lean()
-    return run_server([DRIVER, unicode_table()], requests, **kw)
+    return run_server([DRIVER, unicode_table()], requests, limits=_limits_model, **kw)
 
 
 # ---------------------------------------------------------------- Lean obligations
